@@ -286,6 +286,13 @@ theorem body_eq_seqCall (wf : Nat → Rat) (s : HSched) :
     simp only [runBody, exec, hz, if_false, Bool.false_eq_true, peek]
     simp [updEntry, pz, hpos, upd_at, upd_upd, repush]
 
+/-- the regenerated steps of `Add` between `lock` and `unlock`, executed by one caller alone, are `HSched.add`. -/
+theorem add_body_eq (wf : Nat → Rat) (s : HSched) (item : Nat) (w : Rat) :
+    (runBody (exec wf) (middle EdfLock.add) s { arg := (item, w) }).1 = s.add item w := by
+  have hm : middle EdfLock.add = [.newEntry, .push] := by decide
+  rw [hm]
+  simp [runBody, exec, HSched.add]
+
 /-- any order of `NextAndPush` calls, one after the other, is `seqCalls`. -/
 theorem serial_eq_seqCalls (wf : Nat → Rat) (order : List Nat) (s : HSched) :
     (serial (exec wf) (napCalls EdfLock.nextAndPush) order s).1 = (seqCalls s wf order.length).2 ∧
